@@ -12,7 +12,7 @@ from fractions import Fraction
 import numpy as np
 from . import common
 
-THEOREM_FILES = ['NumqiProps/C04.lean']
+THEOREM_FILES = ['NumqiProps/C04.lean', 'NumqiProps/C04Params.lean']
 LEVEL = 'proof'
 RULE = ('gate rules: n in 1..5, gate size 1..3, random target tuples in any order, random control sets, Gaussian-integer unitary (signed '
         'permutation x phase) and non-unitary matrices, tag_op_grad on/off; sweeps: random circuits built through the real Circuit / '
@@ -52,7 +52,7 @@ def guarded(f):
         return f()
     except AssertionError:
         return 'error'
-    except (ValueError, TypeError, IndexError, KeyError) as e:
+    except Exception as e:      # any other exception becomes a value that is compared with the model: a disagreement with its input, never exit 2
         return 'error:' + type(e).__name__
 
 
@@ -126,6 +126,29 @@ def gate_ops(ctx, rng, add):
                 return f'{gl(a)}|{gl(b)}|none' if c is None else 'op_grad-not-None'
             ops_line = f'C04 gg {n} {il(t)} {gl(U)} {gl(qc)} {gl(g)}'
             add(ops_line, f2, post=lambda m: '|'.join(m.split('|')[:2]) + '|none')
+        if rep % 2 == 0:
+            Ur = np.rint(U.real + U.imag); qr = qc.real.copy(); grr = g.real.copy()          # real integer data
+            for tag, dt in (('int64', np.int64), ('float32', np.float32), ('float64', np.float64), ('complex64', np.complex64)):
+                def fr(dt=dt, tag=tag, Ur=Ur, qr=qr, grr=grr, idx=idx, n=n, t=t):
+                    qc_in, g_in, U_in = qr.astype(dt), grr.astype(dt), Ur.astype(dt)
+                    a, b, c = st.apply_gate_grad(qc_in, g_in, U_in, idx)
+                    check_unmutated(ctx, f'apply_gate_grad[{tag}]', dict(n=n, index=t, dtype=tag, U=gl(Ur), q0_conj=gl(qr), q0_grad=gl(grr)),
+                                    [('q0_conj', qc_in, qr.astype(dt)), ('q0_grad', g_in, grr.astype(dt)), ('op', U_in, Ur.astype(dt))])
+                    return f'{gl(a)}|{gl(b)}|{gl(c)}'
+                add(f'C04 gg {n} {il(t)} {gl(Ur)} {gl(qr)} {gl(grr)}', fr)
+                ctx.count('gate-dtype-' + tag)
+
+            def fview(U=U, qc=qc, g=g, idx=idx, n=n, t=t):
+                bigq = np.zeros(2 * len(qc), dtype=qc.dtype); bigq[::2] = qc
+                bigg = np.zeros(2 * len(g), dtype=g.dtype); bigg[1::2] = g
+                Uv = np.ascontiguousarray(U.T).T
+                a, b, c = st.apply_gate_grad(bigq[::2], bigg[1::2], Uv, idx)
+                ok = np.array_equal(bigq[::2], qc) and np.array_equal(bigg[1::2], g) and np.array_equal(Uv, U) and not bigq[1::2].any() and not bigg[::2].any()
+                if not ok:
+                    ctx.fail(MUTATION_KEY + ':apply_gate_grad[view]', 'apply_gate_grad wrote into a strided view it was given (or next to it)',
+                             dict(n=n, index=t, U=gl(U), q0_conj=gl(qc), q0_grad=gl(g)))
+                return f'{gl(a)}|{gl(b)}|{gl(c)}'
+            add(f'C04 gg {n} {il(t)} {gl(U)} {gl(qc)} {gl(g)}', fview)
         ctx.count(f'gate-n{n}-k{k}-{"unitary" if unitary else "general"}')
         # controlled
         if n >= 2:
@@ -881,6 +904,87 @@ def probe_inputs(ctx, rng, worst):
         ctx.count(f'input-{graph}'); ctx.count(f'prefix-{prefix}')
 
 
+def corpus_replay(ctx):
+    """/verif/corpus/C04/*.json: the recorded failing input of every repaired defect, replayed first on every run (both tiers)"""
+    import glob, json, os, numqi
+    st = numqi.sim.state
+    cv = lambda x: complex(x) if isinstance(x, str) else x
+    for path in sorted(glob.glob(os.path.join(common.VERIF, 'corpus', 'C04', '*.json'))):
+        tag = os.path.basename(path)[:-5]
+        for e in json.load(open(path))['entries']:
+            if e.get('kind') != 'apply_gate_grad':
+                continue
+            idx = e['index']
+            idx = np.int64(int(idx[9:-1])) if isinstance(idx, str) else idx
+            U = np.array([[cv(x) for x in row] for row in e['U']], dtype=np.complex128)
+            qc = np.array([cv(x) for x in e['q0_conj']], dtype=np.complex128); g = np.array([cv(x) for x in e['q0_grad']], dtype=np.complex128)
+            rep = dict(op='apply_gate_grad', corpus=tag, n=e['n'], index=repr(idx), U=gl(U), q0_conj=gl(qc), q0_grad=gl(g))
+            try:
+                a, b, c = st.apply_gate_grad(qc.copy(), g.copy(), U, idx)
+                a2, b2, c2 = st.apply_gate_grad(qc.copy(), g.copy(), U, (int(idx),))
+                ok = np.array_equal(a, a2) and np.array_equal(b, b2) and np.array_equal(c, c2)
+            except Exception as ex:
+                ctx.fail(INT_INDEX_KEY, f'[corpus {tag}] apply_gate_grad(q0_conj, q0_grad, op, index={idx!r}) raises {type(ex).__name__}', rep); continue
+            if not ok:
+                ctx.fail(INT_INDEX_KEY, f'[corpus {tag}] apply_gate_grad with the bare index {idx!r} differs from the tuple form', rep)
+            else:
+                ctx.probe_ok(('corpus', tag, repr(idx)))
+
+
+def probe_histories(ctx, rng, worst):
+    """objects with state driven through histories: the same wrapper called repeatedly (forward/backward), two circuits of different
+    size interleaved, placeholders re-bound, parameters overwritten in place through the flat bridge; exact-zero angles"""
+    import numqi, torch
+    for rep in range(3 if ctx.quick() else 12):
+        seed = int(rng.integers(1 << 30)); r2 = np.random.default_rng(seed)
+        info = dict(op='CircuitTorchWrapper-history', seed=seed)
+        try:
+            items = []
+            for n in (2, 3):
+                circ, nph = random_circuit(r2, n, int(r2.integers(3, 8)))
+                circ.ry(circ.num_qubit - 1 if circ.num_qubit else 0, float(r2.uniform(0, 6)))
+                w = numqi.sim.CircuitTorchWrapper(circ)
+                ph = torch.nn.Parameter(torch.tensor(r2.uniform(0, 6, size=max(nph, 1)), dtype=torch.float64))
+                a = torch.tensor(r2.normal(size=2 ** circ.num_qubit) + 1j * r2.normal(size=2 ** circ.num_qubit))
+                items.append((circ, w, nph, ph, a))
+
+            def grad_of(item, kindf='custom'):
+                circ, w, nph, ph, a = item
+                ps = [ph] + [w.theta[k] for k in sorted(w.theta.keys())]
+                for p_ in ps:
+                    p_.grad = None
+                if nph:
+                    w.setP(a=ph)
+                q0 = torch.zeros(2 ** circ.num_qubit, dtype=torch.complex128); q0[0] = 1
+                psi = w(q0) if kindf == 'custom' else reimplement(circ, w, q0, ph)
+                v = torch.vdot(a, psi); loss = (v * v.conj()).real + torch.vdot(a, psi).imag
+                loss.backward()
+                return np.concatenate([(p_.grad if p_.grad is not None else torch.zeros_like(p_)).numpy().reshape(-1) for p_ in ps])
+            steps = []
+            first = {}
+            for step, which in enumerate([0, 1, 0, 0, 1, 0, 1, 1, 0]):
+                g = grad_of(items[which]); steps.append(which)
+                if which in first and not np.array_equal(g, first[which]):
+                    ctx.fail('wrapper-history', f'the same CircuitTorchWrapper returned a different gradient at call #{step} of an interleaved history '
+                             f'(max diff {np.max(np.abs(g - first[which])):.3e})', dict(info, history=steps)); break
+                first.setdefault(which, g)
+            else:
+                # in-place overwrite through the flat bridge, exact zeros included, then compare with autograd
+                for item in items:
+                    circ, w, nph, ph, a = item
+                    x = numqi.optimize.get_model_flat_parameter(w)
+                    x2 = x.copy(); x2[::2] = 0.0
+                    numqi.optimize.set_model_flat_parameter(w, x2)
+                    e = rel_err(grad_of(item, 'custom'), grad_of(item, 'autograd'))
+                    worst['history_autograd'] = max(worst.get('history_autograd', 0.0), e)
+                    if e > 1e-9:
+                        ctx.fail('wrapper-history', f'gradient after an in-place parameter overwrite (with exact zeros) differs from autograd by {e:.3e}', dict(info, theta=x2.tolist())); break
+                else:
+                    ctx.probe_ok(('history', seed))
+        except Exception as e:
+            ctx.fail('history-raises', f'{type(e).__name__}: {e}', info)
+
+
 def probe_aliasing_ops(ctx, rng):
     """the other hand-written backward passes must leave grad_output, their inputs and their saved tensors untouched"""
     import numqi, torch
@@ -956,6 +1060,7 @@ def probe_aliasing_ops(ctx, rng):
 
 def probe(ctx):
     import numqi, torch
+    corpus_replay(ctx)
     rng = np.random.default_rng(ctx.np_seed + 5)
     worst = dict(circuit_fd=0.0, circuit_autograd=0.0, sqrtm=0.0, logm=0.0, varqec=0.0)
     # (1) CircuitTorchWrapper on random circuits
@@ -1025,6 +1130,7 @@ def probe(ctx):
     # (1b) several circuit branches in one graph, outputs consumed twice, every kind of last gate; aliasing of grad_output
     probe_graphs(ctx, rng, worst)
     probe_inputs(ctx, rng, worst)
+    probe_histories(ctx, rng, worst)
     probe_aliasing_ops(ctx, rng)
     # (2) Knill-Laflamme op and the VarQEC loss through the flat-parameter bridge
     for rep in range(2 if ctx.quick() else 8):
@@ -1119,10 +1225,10 @@ def probe(ctx):
             ctx.probe_ok(('flat', seed))
     # (3) PSDMatrixSqrtm / PSDMatrixLogm incl. degenerate spectra
     notes = {}
-    for rep in range(16 if ctx.quick() else 120):
+    for rep in range(18 if ctx.quick() else 120):
         seed = int(rng.integers(1 << 30)); r2 = np.random.default_rng(seed)
         d = int(r2.integers(1, 5))
-        spec_kind = ['generic', 'degenerate', 'near-degenerate', 'rank-deficient'][rep % 4]
+        spec_kind = ['generic', 'degenerate', 'near-degenerate', 'rank-deficient', 'gap-1e-12', 'gap-1e-8'][rep % 6]
         batch = bool(rep % 8 >= 4)
         info = dict(op='PSDMatrixSqrtm/Logm', seed=seed, dim=d, spectrum=spec_kind, batched=batch)
         try:
@@ -1132,6 +1238,10 @@ def probe(ctx):
                 ev[1] = ev[0]
             if spec_kind == 'near-degenerate' and d >= 2:
                 ev[1] = ev[0] * (1 + 1e-9)
+            if spec_kind == 'gap-1e-12' and d >= 2:
+                ev[1] = ev[0] + 1e-12
+            if spec_kind == 'gap-1e-8' and d >= 2:
+                ev[1] = ev[0] + 1e-8
             if spec_kind == 'rank-deficient':
                 ev[0] = 0.0
             A0 = (Q * ev) @ Q.conj().T
